@@ -212,10 +212,13 @@ def struct(name, fields):
     return {"name": name, "fields": params(fields)}
 
 
-def program(name, structs, stages, pipelines, top, args, filetypes=()):
+def program(name, structs, stages, pipelines, top, args, filetypes=(), top_mode="none", top_split=()):
+    """top_mode "array" / "map": the top-level call is a `map call` over the arguments named in
+    top_split (given as whole collections)"""
     return {"name": name, "structs": structs, "stages": stages, "pipelines": pipelines,
             "filetypes": list(filetypes),
-            "top": {"callee": top, "args": [{"n": k, "e": lit(v)} for k, v in args.items()]}}
+            "top": {"callee": top, "mode": top_mode,
+                    "args": [{"n": k, "e": (split(lit(v)) if k in top_split else lit(v))} for k, v in args.items()]}}
 
 
 # ----------------------------------------------------------------------------
@@ -390,9 +393,16 @@ def render(prog, stage_src="vstage", invocation=True, include_call=True, stage_l
     if include_call:
         top = callable_of(prog, prog["top"]["callee"])
         pt = {p["n"]: p["t"] for p in top["ins"]}
-        out.append("call %s(" % prog["top"]["callee"])
+        mapped = prog["top"].get("mode", "none") != "none"
+        out.append("%scall %s(" % ("map " if mapped else "", prog["top"]["callee"]))
         for a in prog["top"]["args"]:
-            out.append("    %s = %s," % (a["n"], render_exp(a["e"], pt.get(a["n"]), prog)))
+            t_ = pt.get(a["n"])
+            if a["e"]["k"] == "split" and t_:
+                # the collection that is split has one dimension more than the parameter
+                t_ = dict(t_, a=t_["a"] + 1) if prog["top"]["mode"] == "array" else dict(t_, m=1, ia=t_["a"], a=0)
+                out.append("    %s = split %s," % (a["n"], render_exp(a["e"]["e"], t_, prog)))
+            else:
+                out.append("    %s = %s," % (a["n"], render_exp(a["e"], t_, prog)))
         out.append(")")
     return "\n".join(out) + "\n"
 
